@@ -524,7 +524,7 @@ def make_i(mnemonic, opcode, read=False, write=False):
 
 Cpi = make_i("cpi", 0b0011, read=True, write=False)
 Sbci = make_i("sbci", 0b0100, read=True, write=True)
-Subi = make_i("sbci", 0b0101, read=True, write=True)
+Subi = make_i("subi", 0b0101, read=True, write=True)
 Ori = make_i("ori", 0b0110, read=True, write=True)
 Andi = make_i("andi", 0b0111, read=True, write=True)
 Ldi = make_i("ldi", 0b1110, read=False, write=True)
